@@ -30,6 +30,7 @@ pub enum Form {
     Slice,
     Iter,
     IterOdd,
+    IterLoose,
     Bytewise,
     AddSlice,
     AddArr,
@@ -37,10 +38,11 @@ pub enum Form {
     Chain,
 }
 
-pub const FORMS: [Form; 8] = [
+pub const FORMS: [Form; 9] = [
     Form::Slice,
     Form::Iter,
     Form::IterOdd,
+    Form::IterLoose,
     Form::Bytewise,
     Form::AddSlice,
     Form::AddArr,
@@ -54,6 +56,7 @@ impl Form {
             Form::Slice => "slice",
             Form::Iter => "iter",
             Form::IterOdd => "iter_odd",
+            Form::IterLoose => "iter_loose",
             Form::Bytewise => "bytewise",
             Form::AddSlice => "add_slice",
             Form::AddArr => "add_arr",
@@ -258,6 +261,24 @@ impl Iterator for OddIter<'_> {
     }
 }
 
+/// An iterator whose size hint is legal but loose: the upper bound is larger
+/// than what it yields (like `filter` / `take_while` adaptors).
+struct LooseIter<'a> {
+    b: &'a [u8],
+    i: usize,
+}
+impl Iterator for LooseIter<'_> {
+    type Item = u8;
+    fn next(&mut self) -> Option<u8> {
+        let r = self.b.get(self.i).copied();
+        self.i += 1;
+        r
+    }
+    fn size_hint(&self) -> (usize, Option<usize>) {
+        (0, Some(self.b.len().saturating_sub(self.i.min(self.b.len())) + 5))
+    }
+}
+
 pub fn feed(g: &mut Generator, form: Form, b: &[u8]) {
     match form {
         Form::Slice => {
@@ -268,6 +289,14 @@ pub fn feed(g: &mut Generator, form: Form, b: &[u8]) {
         }
         Form::IterOdd => {
             g.update_by_iter(OddIter { b, i: 0 });
+        }
+        Form::IterLoose => {
+            // half of the time a real std adaptor chain with a loose bound
+            if b.len() % 2 == 0 {
+                g.update_by_iter(LooseIter { b, i: 0 });
+            } else {
+                g.update_by_iter(b.iter().copied().chain([0xAAu8, 0xBB]).enumerate().filter(|(i, _)| *i < b.len()).map(|(_, x)| x));
+            }
         }
         Form::Bytewise => {
             for &x in b {
